@@ -187,6 +187,11 @@ pub struct NodeSpec {
     /// 2 = u32.
     #[serde(default)]
     pub panic_at: Option<(u32, u8)>,
+    /// Sub-models only: the mailbox is created inside the parent's `build()` and no address of
+    /// it exists before `add_submodel`; only the model's own children send to it, through an
+    /// address the model hands out from its own `build()` (`BuildContext::address()`).
+    #[serde(default)]
+    pub late_mailbox: bool,
 }
 fn yes() -> bool {
     true
